@@ -1,10 +1,11 @@
 (* Extraction of the C17 model for the correspondence driver.  ExtrOcamlBasic and
    ExtrOcamlString only: N, Z, positive, nat stay the extracted inductive datatypes. *)
 From SV Require Import Base.Prelude Base.Bytes Model.Vint Model.Cql Model.Accept.
+From SV Require Model.Request.
 Require Extraction.
 Require Import ExtrOcamlBasic ExtrOcamlString.
 Extraction Language OCaml.
 Extraction "../ocaml/c17/model.ml" ser_buf ser_dyn ser_accepts deser_check deser_accepts row_accepts
   add_value add_value_chunks chunks_bytes sv_iter sv_iter_go sv_new from_row
   doc_compat spec_compat known_class ser_cell_ok deser_cell_ok is_typeck has_carrier populated
-  ser_impl deser_impl static all_bases all_ntypes dyn_fits dyn_known is_size_err val_fits val_known row_check typed_rows closure_count code_compat relaxed vector_elem_hole is_refusal.
+  ser_impl deser_impl static all_bases all_ntypes dyn_fits dyn_known is_size_err val_fits val_known row_check typed_rows closure_count code_compat relaxed vector_elem_hole is_refusal from_typed_row named_vser.
